@@ -64,3 +64,22 @@ fn slice_begin_beyond_len_panics() {
     kani::assume(a > len);
     let _ = b.slice(a..);
 }
+
+/// start bounds given as `(Bound, Bound)` pairs — the only way to get an EXCLUDED start: begin = n + 1 and the
+/// documented `begin <= len` check applies to THAT value (seeded change C10-5)
+#[kani::proof]
+fn slice_bound_pair_excluded_start() {
+    use std::ops::Bound;
+    let (b, len) = any_abs(); let a: usize = kani::any();
+    kani::assume(a < len);                       // begin = a + 1 <= len
+    let s = b.slice((Bound::Excluded(a), Bound::Unbounded));
+    assert!(s.begin() == a + 1 && s.end().is_none());
+}
+#[kani::proof]
+#[kani::should_panic]
+fn slice_bound_pair_excluded_start_at_len_panics() {
+    use std::ops::Bound;
+    let (b, len) = any_abs();
+    kani::assume(len < usize::MAX);
+    let _ = b.slice((Bound::Excluded(len), Bound::Unbounded));   // begin = len + 1 > len
+}
